@@ -148,7 +148,7 @@ def build_cfg(btype, kind, cxx="g++", jobs=4, guard=True):
     WITHOUT the hook guard, i.e. exactly as shipped (no step budgets there: not for damaged inputs)."""
     # (the name must not extend another flavour's name: stale directories are removed by prefix)
     name = "%s-%s-%s-%s" % ("cfg" if guard else "cfgnoguard", btype, kind, cxx.replace("+", "p"))
-    key = _sha_files(repo_files() + driver_sources() + driver_headers(), extra=name)
+    key = _sha_files(repo_files() + driver_sources() + driver_headers(), extra=name + "|driver compiled and linked by g++")
     out = os.path.join(BUILD_ROOT, "%s-%s" % (name, key))
     exe = os.path.join(out, "c3d_driver")
     lk = _lock(name)
@@ -174,19 +174,22 @@ def build_cfg(btype, kind, cxx="g++", jobs=4, guard=True):
         if not libs:
             raise BuildError("no library produced (%s)" % name)
         lib = libs[0]
-        # the driver itself is compiled identically (-O1) for every configuration: only the library differs
+        # the driver itself is compiled identically for every configuration -- same compiler (g++), same flags: only the library differs.
+        # (Compiling it with the configuration's compiler made g++ and clang++ runs diverge in the DRIVER: the order in which function
+        # arguments that draw random numbers are evaluated is unspecified.  Both compilers use libstdc++, so the objects link.)
+        drv_cxx = "g++"
         inc = ["-I", os.path.join(REPO, "include"), "-I", os.path.join(VERIF, "driver")]
         objs = []
 
         def comp(s):
             o = os.path.join(out, "drv_" + os.path.basename(s) + ".o")
-            return o, _run([cxx, "-std=c++11", "-O1", "-g", GUARD, "-DVERIF_PLAIN", "-w"] + inc + ["-c", s, "-o", o])
+            return o, _run([drv_cxx, "-std=c++11", "-O1", "-g", GUARD, "-DVERIF_PLAIN", "-w"] + inc + ["-c", s, "-o", o])
         with ThreadPoolExecutor(jobs) as ex:
             for o, p in ex.map(comp, driver_sources()):
                 if p.returncode != 0:
                     raise BuildError("driver compile failed (%s)\n%s" % (name, p.stdout[-4000:]))
                 objs.append(o)
-        link = [cxx] + objs + [lib, "-pthread", "-ldl", "-o", exe]
+        link = [drv_cxx] + objs + [lib, "-pthread", "-ldl", "-o", exe]
         if kind == "shared":
             link += ["-Wl,-rpath," + os.path.dirname(lib)]
         p = _run(link)
